@@ -442,6 +442,7 @@ type seeded struct {
 	closedAt  time.Duration
 	closeRet  bool
 	okAttempts int
+	cover     time.Duration
 	bound     time.Duration
 	lastFaultArmed bool
 }
@@ -493,6 +494,7 @@ func buildSeeded() core.BuildFunc {
 		r.P.AutoDeselectRsp = false
 		// worst case for one covered stall, plus the longest run of failed attempts at the T5 ceiling
 		cover := sc.T3 + time.Duration(sc.Thr+1)*(sc.Linktest+sc.T6) + sc.T7 + sc.T8
+		s.cover = cover
 		s.bound = cover + 6*(sc.T5+sc.ConnTO) + sc.Init + time.Second
 		r.N.DialPlan = func(n int, address string) simnet.DialOutcome {
 			a := &attempt{start: w.Now()}
@@ -631,6 +633,7 @@ func (s *seeded) onOpen(c *refhsms.Conn) {
 		s.faultIdx++
 		if s.faultIdx >= len(sc.Faults) {
 			s.faultsDone, s.faultsDoneAt = true, w.Now()
+			s.bound = s.cover + time.Duration(len(s.plan)+2)*(sc.T5+sc.ConnTO) + sc.Init + time.Second
 		} else if k := sc.Faults[s.faultIdx].Kind; k == fDialRefuse || k == fDialBlackhole {
 			// the following fault is a run of failed attempts: arm it now, it applies to the re-dials
 			nf := sc.Faults[s.faultIdx]
@@ -640,6 +643,8 @@ func (s *seeded) onOpen(c *refhsms.Conn) {
 			s.faultIdx++
 			if s.faultIdx >= len(sc.Faults) {
 				s.faultsDone, s.faultsDoneAt = true, w.Now()
+				// the failed attempts still planned each cost at most one T5 wait plus a connect timeout
+				s.bound = s.cover + time.Duration(len(s.plan)+2)*(sc.T5+sc.ConnTO) + sc.Init + time.Second
 			}
 		}
 	}
